@@ -11,7 +11,8 @@ def run(ctx):
     two = [s for s in wcat.twoproc_scenarios() if s["family"] == "2proc:tok"]
     plan = [
         {"scens": wcat.token_scenarios(("file", "process")), "policies": ("FIFO", "LIFO") if q else ("FIFO", "LIFO", "JOBS"), "bound": 1 if q else 2, "cap": 40000},
-        {"scens": two, "policies": ("FIFO", "JOBS"), "bound": 1 if q else 2, "cap": 60000},
+        {"scens": two, "policies": wcat.POL_WIDE, "bound": 1, "cap": 60000},
+        {"scens": two, "policies": ("FIFO",), "bound": 1 if q else 2, "cap": 400000},
         # scheduler killed while its jobs hold tokens; the restarted scheduler must reclaim them (TokenFile.watch)
         {"scens": [k for k in wcat.kill_scenarios() if "token" in k["name"]], "policies": ("FIFO",), "kills": {"restart_bound": 0}},
         {"scens": [k for k in wcat.kill_scenarios() if "token" in k["name"]], "policies": ("LIFO",), "kills": {"restart_bound": 0}},
